@@ -63,7 +63,7 @@ pub fn generate_pair(seed: u64, n: usize, bias: u64, pair: u64, out: &mut Vec<St
         // version: mostly fixed; undetermined only makes sense for something that can act as a server
         let ver = if role != 0 && r.chance(1, 6) { 0 } else if r.chance(1, 2) { 4 } else { 5 };
         let ver = if bias >= 12 && bias <= 14 && ver == 4 { 5 } else { ver };
-        let ver = if pair == 16 && ver == 0 { 5 } else { ver };
+        // (paired restore cases include endpoints created with an undetermined version)
         let abuse = if pair != 0 { false } else { r.chance(1, 10) };
         stats.cases += 1;
         stats.by_role[role as usize] += 1;
